@@ -3,6 +3,18 @@
 import json, subprocess
 HOOK_COMMITS = ["a1315f2", "d15244f", "22f1f7d"]
 CHECKS = {
+ "C01": dict(cat="exploration", tech="exhaustive enumeration of Model values (cores x context chains x relations x constants x declaration forms; logic trees x comparison forms; bound feeders x consumers), each compiled and decided exactly by a region abstraction: all discrete assignments x every cell of the partition of one continuous variable, exact LP/MILP projection of the linear model",
+   text="For every compiled model the source feasible set S (exact reference semantics) and the projection L of the linear model onto the declared variables (integer auxiliaries enumerated, continuous ones by exact LP) are compared at every breakpoint, cell midpoint and beyond-end point of the merged partition, for every assignment of the discrete variables: since S and L are finite unions of closed intervals with all endpoints among the test points, S = L is decided on the whole real line, not on a grid.",
+   note="Trusted: refsem evaluator, exact LP/MILP oracle, breakpoint computation (self-consistent with the evaluator); one continuous variable exact, further ones on a rational grid; mismatches within 1e-9 of the other set's boundary are attributed to f64 rounding of derived bounds; models with non-dyadic constants are checked on cell interiors only.", ref="4/C01"),
+ "C02": dict(cat="exploration", tech="same enumeration with min/max objectives; per region cell two exact statements (never-better by exact MILP, attained by interval-union coverage of exact projections)",
+   text="For every compiled objective model, every discrete assignment and every cell of the region partition (on which the source objective f is affine, self-checked): (i) no auxiliary extension of a source-feasible value has a better linear objective (incl. offset) than f; (ii) every source-feasible value has an extension attaining f. Together: best linear objective over extensions = f pointwise, hence equal optima and statuses.",
+   note="Trusted: as C01. Non-dyadic models and models whose continuous variable occurs under a logic operator are skipped and counted.", ref="4/C02"),
+ "C07": dict(cat="fault_enumeration", tech="exhaustive enumeration of models x EVERY propagation step budget 0..K (every prefix of the work-list is a stopping point), judged against exact source-feasible ranges; plus exhaustive expression x box enumeration for forward ranges",
+   text="Through the verif_hooks view of the bounds analysis each model is analysed with every step budget from 0 to the first budget that is not exhausted, on raw and normalised constraints; every derived range, every published (rounded) domain and the compiled model's domains must contain the exact range of the variable over the source-feasible set; no NaN; empty range only with infeasibility recorded; infeasibility recorded only for infeasible models. bounds_of over 9 boxes must contain the exact range of every core-in-context expression.",
+   note="Trusted: exact source ranges from the region partition; tolerance 1e-9 relative (the analyser's own). Hook 1 is a read-only wrapper over the private analyser.", ref="4/C07"),
+ "C08": dict(cat="exploration", tech="exhaustive enumeration of compiled models (C01 families) plus an adversarial text alphabet; structural invariants and the missing-bounds contract checked on every output",
+   text="Every linear model compiled from the C01 families and from 22 adversarial texts is checked: sorted duplicate-free variables equal to the domain keys, every source variable present, one coefficient per variable everywhere, only finite numbers, unique row names with first use of a user name verbatim, $-prefixed auxiliaries, no constant above 1e7; every MissingFiniteBounds error must list exactly the unbounded variables of the offending expression (per the hooked analysis).",
+   note="Trusted: hook 1 for derived bounds; the magnitude threshold 1e7 for 'guessed constants' given menus with constants below 1e3.", ref="4/C08"),
  "C04": dict(cat="exploration", tech="exhaustive small-scope enumeration of LinearModel families x 5 solver entry points; independent certificate re-check of every returned solution",
    text="Every member of finite LinearModel families (domains x coefficients x relations x rhs x objective, plus degenerate specials) is solved by every built-in entry point that accepts it; each returned solution is re-checked against rows, bounds, integrality, objective value and named-row activities at 1e-6. Exhaustive within the stated menus, in worker subprocesses with a per-case watchdog.",
    note="Trusted: the harness's own arithmetic in f64 for the certificate (tolerance 1e-6*(1+|rhs|)); well-scaled coefficient menus; n<=4, m<=4.", ref="4/C04"),
